@@ -153,7 +153,9 @@ func (vc *vectorIndexCache) createAndCacheLOCKED(fieldID uint16, mem []byte,
 		docIDUint32 := uint32(docID)
 		if isExceptNotEmpty && except.Contains(docIDUint32) {
 			vecIDsToExclude = append(vecIDsToExclude, vecID)
-			continue
+			// no continue here: the maps are cached and shared by later
+			// queries, whose exclusions differ from this query's (every
+			// query derives its own vecIDsToExclude from the full map)
 		}
 		vecDocIDMap[vecID] = docIDUint32
 		if loadDocVecIDMap {
